@@ -117,6 +117,9 @@ func (c *Conn) Read(p []byte) (int, error) {
 	if c.srvClosed {
 		return 0, &net.OpError{Op: "read", Net: "tcp", Err: errClosed}
 	}
+	if dl >= 0 && s.now >= dl {
+		return 0, &net.OpError{Op: "read", Net: "tcp", Err: timeoutErr{}}
+	}
 	if len(c.in) > 0 {
 		seg := c.in[0]
 		n := copy(p, seg)
@@ -153,6 +156,10 @@ func (c *Conn) Write(p []byte) (int, error) {
 	}
 	if c.cut || c.peerReset {
 		return 0, &net.OpError{Op: "write", Net: "tcp", Err: os.NewSyscallError("write", syscall.EPIPE)}
+	}
+	if dl >= 0 && s.now >= dl {
+		// like the real net.Conn: a deadline that has passed fails the write even if it could proceed
+		return 0, &net.OpError{Op: "write", Net: "tcp", Err: timeoutErr{}}
 	}
 	if c.stalled {
 		return 0, &net.OpError{Op: "write", Net: "tcp", Err: timeoutErr{}}
